@@ -25,7 +25,12 @@ structure Probe where
   modulus : Nat
   residue : Nat
   marker : Name
+  /-- the value hook replaces by `null` instead of the enum marker (a replacement a rebuild could mistake for "no value") -/
+  nullify : Bool := false
   deriving Repr, Inhabited
+
+/-- the value a hit of the value hook puts in place of the visited value -/
+def Probe.value (p : Probe) : Value := if p.nullify then .null else .enum p.marker
 
 def Probe.hit (p : Probe) (key : Nat) : Bool := p.modulus != 0 && key % p.modulus == p.residue
 
@@ -84,7 +89,7 @@ def transformValue (h : Hooks) (v : Value) : W (Tr Value) :=
   | none => defaultTransformValue v
   | some p =>
     let d := defaultTransformValue v
-    ((if p.hit (valueKey v) then .replace (.enum p.marker) else d.1), (HookId.value, valueKey v) :: d.2)
+    ((if p.hit (valueKey v) then .replace p.value else d.1), (HookId.value, valueKey v) :: d.2)
 
 def defaultTransformArgument (h : Hooks) (a : Arg) : W (Tr Arg) :=
   let r := transformValue h a.2
